@@ -63,7 +63,7 @@ def run(tier: str, seed: int) -> int:
                                       "shape": shape}).set_geometry("shape")
                 tb = df.geometry.array.total_bounds
                 for inparts in ([1, 3] if quick else [1, 2, 3]):
-                    mode = rng.choice(["plain", "filtered", "sorted", "touched-filtered", "repacked", "repacked-filtered"])
+                    mode = rng.choice(["plain", "filtered", "sorted", "touched-filtered", "repacked", "repacked-filtered", "indexed", "indexed"])
                     src = df
                     if mode == "sorted":
                         hd = df.geometry.hilbert_distance(total_bounds=tb, p=10)
@@ -74,6 +74,9 @@ def run(tier: str, seed: int) -> int:
                         # the parent's partition bounds / index are cached BEFORE rows are filtered away (incl. the extreme ones)
                         ddf.partition_sindex  # noqa: B018
                         _ = ddf.cx[0:1, 0:1]
+                    if mode == "indexed":
+                        # history: every partition carries a built spatial index (build_sindex, persisted) before the frame is packed
+                        ddf = ddf.build_sindex(page_size=2).persist()
                     if mode in ("repacked", "repacked-filtered"):
                         # the input was packed before (other p, other partition count): it is already indexed by a column called
                         # hilbert_distance whose values are NOT the distances asked for now
